@@ -95,8 +95,16 @@ fn build(world: &Arc<World>, c: usize, spec: CallSpec) -> Option<(Fut, serde_jso
         }
         CallSpec::Publish { topic, msgs } => {
             let name = TopicName::try_parse(&topic)?;
+            // `bulk:N` stands for N small distinguishable messages in one request
+            let msgs = match msgs.as_slice() {
+                [one] if one.p.starts_with("bulk:") => {
+                    let n = one.p[5..].parse::<usize>().unwrap_or(1);
+                    (0..n).map(|i| crate::ops::MsgSpec { p: format!("k{}", i) }).collect::<Vec<_>>()
+                }
+                _ => msgs,
+            };
             let messages = msgs.iter().map(|m| payload(&m.p)).collect::<Vec<_>>();
-            let inv = json!({"c": c, "op": "Publish", "topic": topic, "lib": true,
+            let inv = json!({"c": c, "op": "Publish", "topic": topic, "lib": true, "n": messages.len(),
                 "msgs": messages.iter().map(|(d, a)| json!({"data": crate::world::digest(d), "attrs": crate::world::attrs_list(a)})).collect::<Vec<_>>()});
             Some((
                 Box::pin(async move {
